@@ -25,14 +25,15 @@ SHARDS = {"quick": 16, "thorough": 16}
 FLOOR = {"quick": 300, "thorough": 5000}
 REQUIRED_COUNTERS = ["runs", "stage_faults_fired", "line_failpoints_fired", "write_faults_fired", "fs_events_observed",
                      "snapshots_compared", "noforce_runs", "force_runs", "fault_free_runs", "line_failpoints_enumerated"]
-RULE = ("configurations = 3 layouts x existing tree {equal, different, partial, interrupted (no client.py)} x force {off, on}; per configuration: fault-free run, "
+RULE = ("configurations = 4 layouts x existing tree {equal, different, partial, interrupted (no client.py)} x force {off, on}; per configuration: fault-free run, "
         "every stage x {entry, exit}, every k-th write failing with ENOSPC, and LINE failpoints at the statements executed by the fault-free "
         "run (quick: every 6th, thorough: all); case = (configuration, fault); non-trivial = the fault point fired (or, fault-free, >=1 fs event)")
 ASSUMPTIONS = ["post-processing children (ruff/mypy) are not run; the post-processing stage is failed at entry",
                "for LINE failpoints (synthetic exceptions that may land inside the generator's own try blocks) only the effect oracles "
                "(untouched / contained) are applied; the outcome is recorded"]
 
-LAYOUTS = {"embedded": ("client1", None), "sibling": ("acme.client1", "acme.core"), "nested_core": ("acme.apis.client1", "corepkg.rt.core")}
+LAYOUTS = {"embedded": ("client1", None), "sibling": ("acme.client1", "acme.core"), "nested_core": ("acme.apis.client1", "corepkg.rt.core"),
+           "prefix_sibling": ("acme.shop", "acme.shop_core")}   # core directory name starts with the client's directory name
 STAGES = ["load", "parse", "exceptions", "core", "models", "endpoints", "client", "mocks", "postprocess", "diff"]
 
 
